@@ -906,43 +906,43 @@ package xpath
 //@   ensures is(self, *groupNode) ==> result == as(self, *groupNode).nodeType
 
 //@ func newOperatorNode
-//@   props C15
+//@   props C15 C10
 //@   requires[op-known@C15] opOK(op)
 //@   modifies nothing
-//@   ensures result != nil && is(result, *operatorNode)
+//@   ensures[shape@C10] result != nil && is(result, *operatorNode) && isFresh(result) && as(result, *operatorNode).Op == op && as(result, *operatorNode).Left == left && as(result, *operatorNode).Right == right
 //@ func newOperandNode
-//@   props C15
+//@   props C15 C10
 //@   requires[valtype@C15] is(v, float64) || is(v, string)
 //@   modifies nothing
-//@   ensures result != nil
+//@   ensures[shape@C10] result != nil && is(result, *operandNode)
 //@ func newAxisNode
-//@   props C15
+//@   props C15 C10
 //@   modifies nothing
-//@   ensures result != nil
+//@   ensures[shape@C10] result != nil && is(result, *axisNode)
 //@ field newAxisNode.opts[](p)
 //@   requires p != nil
 //@   modifies p.*
 //@ func newVariableNode
-//@   props C15
+//@   props C15 C10
 //@   modifies nothing
-//@   ensures result != nil
+//@   ensures[shape@C10] result != nil && is(result, *variableNode)
 //@ func newFilterNode
-//@   props C15
+//@   props C15 C10
 //@   requires[@C15] n != nil && m != nil
 //@   modifies nothing
-//@   ensures result != nil
+//@   ensures[shape@C10] result != nil && is(result, *filterNode)
 //@ func newGroupNode
-//@   props C15
+//@   props C15 C10
 //@   modifies nothing
-//@   ensures result != nil
+//@   ensures[shape@C10] result != nil && is(result, *groupNode)
 //@ func newRootNode
-//@   props C15
+//@   props C15 C10
 //@   modifies nothing
-//@   ensures result != nil
+//@   ensures[shape@C10] result != nil && is(result, *rootNode)
 //@ func newFunctionNode
-//@   props C15
+//@   props C15 C10
 //@   modifies nothing
-//@   ensures result != nil
+//@   ensures[shape@C10] result != nil && is(result, *functionNode)
 //@ func (*parser).parseOrExpr
 //@   props C06 C10 C17 C15
 //@   requires[depth@C06] p != nil && 0 <= p.d && p.d <= 200
@@ -951,6 +951,10 @@ package xpath
 //@   decreases 200 - p.d, 20
 //@   ensures[depth-restored@C06] p.d == old(p.d)
 //@   loop 0 invariant[depth@C06] p.d == old(p.d)
+//@   uses tier-or
+//@   ensures[tier@C10] tOr(result)
+//@   ensures[munch@C10] stopOr(p.r)
+//@   loop 0 invariant[tier@C10] tOr(opnd) && stopAnd(p.r)
 //@ func (*parser).parseAndExpr
 //@   props C06 C10 C17 C15
 //@   requires[depth@C06] p != nil && 0 <= p.d && p.d <= 200
@@ -959,6 +963,10 @@ package xpath
 //@   decreases 200 - p.d, 19
 //@   ensures[depth-restored@C06] p.d == old(p.d)
 //@   loop 0 invariant[depth@C06] p.d == old(p.d)
+//@   uses tier-and
+//@   ensures[tier@C10] tAnd(result)
+//@   ensures[munch@C10] stopAnd(p.r)
+//@   loop 0 invariant[tier@C10] tAnd(opnd) && stopEq(p.r)
 //@ func (*parser).parseEqualityExpr
 //@   props C06 C10 C17 C15
 //@   requires[depth@C06] p != nil && 0 <= p.d && p.d <= 200
@@ -967,6 +975,10 @@ package xpath
 //@   decreases 200 - p.d, 18
 //@   ensures[depth-restored@C06] p.d == old(p.d)
 //@   loop 0 invariant[depth@C06] p.d == old(p.d)
+//@   uses tier-eq
+//@   ensures[tier@C10] tEq(result)
+//@   ensures[munch@C10] stopEq(p.r)
+//@   loop 0 invariant[tier@C10] tEq(opnd) && stopRel(p.r)
 //@ func (*parser).parseRelationalExpr
 //@   props C06 C10 C17 C15
 //@   requires[depth@C06] p != nil && 0 <= p.d && p.d <= 200
@@ -975,6 +987,10 @@ package xpath
 //@   decreases 200 - p.d, 17
 //@   ensures[depth-restored@C06] p.d == old(p.d)
 //@   loop 0 invariant[depth@C06] p.d == old(p.d)
+//@   uses tier-rel
+//@   ensures[tier@C10] tRel(result)
+//@   ensures[munch@C10] stopRel(p.r)
+//@   loop 0 invariant[tier@C10] tRel(opnd) && stopAdd(p.r)
 //@ func (*parser).parseAdditiveExpr
 //@   props C06 C10 C17 C15
 //@   requires[depth@C06] p != nil && 0 <= p.d && p.d <= 200
@@ -983,6 +999,10 @@ package xpath
 //@   decreases 200 - p.d, 16
 //@   ensures[depth-restored@C06] p.d == old(p.d)
 //@   loop 0 invariant[depth@C06] p.d == old(p.d)
+//@   uses tier-add
+//@   ensures[tier@C10] tAdd(result)
+//@   ensures[munch@C10] stopAdd(p.r)
+//@   loop 0 invariant[tier@C10] tAdd(opnd) && stopMul(p.r)
 //@ func (*parser).parseMultiplicativeExpr
 //@   props C06 C10 C17 C15
 //@   requires[depth@C06] p != nil && 0 <= p.d && p.d <= 200
@@ -991,6 +1011,10 @@ package xpath
 //@   decreases 200 - p.d, 15
 //@   ensures[depth-restored@C06] p.d == old(p.d)
 //@   loop 0 invariant[depth@C06] p.d == old(p.d)
+//@   uses tier-mul
+//@   ensures[tier@C10] tMul(result)
+//@   ensures[munch@C10] stopMul(p.r)
+//@   loop 0 invariant[tier@C10] tMul(opnd) && stopUnion(p.r)
 //@ func (*parser).parseUnaryExpr
 //@   props C06 C10 C17 C15
 //@   requires[depth@C06] p != nil && 0 <= p.d && p.d <= 200
@@ -999,6 +1023,9 @@ package xpath
 //@   decreases 200 - p.d, 14
 //@   ensures[depth-restored@C06] p.d == old(p.d)
 //@   loop 0 invariant[depth@C06] p.d == old(p.d)
+//@   uses tier-unary
+//@   ensures[tier@C10] tUnary(result)
+//@   ensures[munch@C10] stopUnion(p.r)
 //@ func (*parser).parseUnionExpr
 //@   props C06 C10 C17 C15
 //@   requires[depth@C06] p != nil && 0 <= p.d && p.d <= 200
@@ -1007,6 +1034,10 @@ package xpath
 //@   decreases 200 - p.d, 13
 //@   ensures[depth-restored@C06] p.d == old(p.d)
 //@   loop 0 invariant[depth@C06] p.d == old(p.d)
+//@   uses tier-union
+//@   ensures[tier@C10] tUnion(result)
+//@   ensures[munch@C10] stopUnion(p.r)
+//@   loop 0 invariant[tier@C10] tUnion(opnd)
 //@ func (*parser).parseSequence
 //@   props C06 C10 C17 C15
 //@   requires[depth@C06] p != nil && 0 <= p.d && p.d <= 200
@@ -1015,6 +1046,9 @@ package xpath
 //@   decreases 200 - p.d, 1
 //@   ensures[depth-restored@C06] p.d == old(p.d)
 //@   loop 0 invariant[depth@C06] p.d == old(p.d) + 1
+//@   uses tier-path
+//@   ensures[tier@C10] tPath(result)
+//@   loop 0 invariant[tier@C10] tPath(opnd)
 //@ func (*parser).parsePrimaryExpr
 //@   props C06 C10 C17 C15
 //@   requires[depth@C06] p != nil && 0 <= p.d && p.d <= 200
@@ -1022,6 +1056,8 @@ package xpath
 //@   modifies heap(F:scanner.*), p.d
 //@   decreases 200 - p.d, 10
 //@   ensures[depth-restored@C06] p.d == old(p.d)
+//@   uses tier-path
+//@   ensures[tier@C10] tPath(result)
 
 // ---------------------------------------------------------------------------
 // The regexp cache (cache.go). The cache is shared between goroutines: its map
@@ -1288,6 +1324,8 @@ package xpath
 //@   modifies heap(F:scanner.*), p.d
 //@   decreases 200 - p.d, 0
 //@   ensures[depth-restored@C06] p.d == old(p.d)
+//@   ensures[tier@C10] tOr(result)
+//@   ensures[munch@C10] stopOr(p.r)
 //@ func (*parser).parsePathExpr
 //@   props C06 C10 C17
 //@   requires[depth@C06] p != nil && 0 <= p.d && p.d <= 200
@@ -1295,6 +1333,8 @@ package xpath
 //@   modifies heap(F:scanner.*), p.d
 //@   decreases 200 - p.d, 12
 //@   ensures[depth-restored@C06] p.d == old(p.d)
+//@   uses tier-path
+//@   ensures[tier@C10] tPath(result)
 //@ func (*parser).parseFilterExpr
 //@   props C06 C10 C17
 //@   requires[depth@C06] p != nil && 0 <= p.d && p.d <= 200
@@ -1302,6 +1342,8 @@ package xpath
 //@   modifies heap(F:scanner.*), p.d
 //@   decreases 200 - p.d, 11
 //@   ensures[depth-restored@C06] p.d == old(p.d)
+//@   uses tier-path
+//@   ensures[tier@C10] tPath(result)
 //@ func (*parser).parseMethod
 //@   props C06 C10 C17
 //@   requires[depth@C06] p != nil && 0 <= p.d && p.d <= 200
@@ -1311,6 +1353,8 @@ package xpath
 //@   ensures[depth-restored@C06] p.d == old(p.d)
 //@   loop 0 invariant[depth@C06] p.d == old(p.d)
 //@   loop 0 invariant[fresh-args@C06] args == nil || isFresh(args)
+//@   uses tier-path
+//@   ensures[tier@C10] tPath(result)
 //@ func (*parser).parsePredicate
 //@   props C06 C10 C17
 //@   requires[depth@C06] p != nil && 0 <= p.d && p.d <= 200
@@ -1325,6 +1369,8 @@ package xpath
 //@   modifies heap(F:scanner.*), p.d
 //@   decreases 200 - p.d, 11
 //@   ensures[depth-restored@C06] p.d == old(p.d)
+//@   uses tier-path
+//@   ensures[tier@C10] tPath(result)
 //@ func (*parser).parseRelativeLocationPath
 //@   props C06 C10 C17
 //@   requires[depth@C06] p != nil && 0 <= p.d && p.d <= 200
@@ -1333,6 +1379,9 @@ package xpath
 //@   decreases 200 - p.d, 10
 //@   ensures[depth-restored@C06] p.d == old(p.d)
 //@   loop 0 invariant[depth@C06] p.d == old(p.d)
+//@   uses tier-path
+//@   ensures[tier@C10] tPath(result)
+//@   loop 0 invariant[tier@C10] true
 //@ func (*parser).parseStep
 //@   props C06 C10 C17
 //@   requires[depth@C06] p != nil && 0 <= p.d && p.d <= 200
@@ -1341,6 +1390,9 @@ package xpath
 //@   decreases 200 - p.d, 9
 //@   ensures[depth-restored@C06] p.d == old(p.d)
 //@   loop 0 invariant[depth@C06] p.d == old(p.d)
+//@   uses tier-path
+//@   ensures[tier@C10] tPath(result)
+//@   loop 0 invariant[tier@C10] tPath(opnd)
 //@ func (*parser).parseNodeTest
 //@   props C06 C10 C17
 //@   requires[depth@C06] p != nil && 0 <= p.d && p.d <= 200
@@ -1348,6 +1400,8 @@ package xpath
 //@   modifies heap(F:scanner.*), p.d
 //@   decreases 200 - p.d, 0
 //@   ensures[depth-restored@C06] p.d == old(p.d)
+//@   uses tier-path
+//@   ensures[tier@C10] tPath(result)
 //@ func (*parser).next
 //@   props C06
 //@   requires p != nil
@@ -1396,15 +1450,19 @@ package xpath
 //@ func isPrimaryExpr
 //@   props C06
 //@   modifies nothing
+//@   inline
 //@ func isNodeType
 //@   props C06
 //@   modifies nothing
+//@   inline
 //@ func isStep
 //@   props C06
 //@   modifies nothing
+//@   inline
 //@ func testOp
 //@   props C06
 //@   modifies nothing
+//@   inline
 //@ func isName
 //@   props C06
 //@   modifies nothing
@@ -1415,3 +1473,31 @@ package xpath
 //@   props C06
 //@   maypanic
 //@   modifies nothing
+
+// ---------------------------------------------------------------------------
+// C10: precedence and associativity. tX(n) says "n is a parse tree of grammar tier X"
+// (XPath 1.0 productions [21]-[27], [18]); the axioms below are the introduction rules of
+// those predicates (their definition, read off the grammar). stopX(r) says that the current
+// token cannot continue an expression of tier X (maximal munch).
+
+//@ define opIs(n, o) = is(n, *operatorNode) && as(n, *operatorNode).Op == o
+//@ define lhs(n) = as(n, *operatorNode).Left
+//@ define rhs(n) = as(n, *operatorNode).Right
+//@ axiom[tier-or] forall(n, any, tAnd(n) || opIs(n, "or") && tOr(lhs(n)) && tAnd(rhs(n)) ==> tOr(n), tOr(n))
+//@ axiom[tier-and] forall(n, any, tEq(n) || opIs(n, "and") && tAnd(lhs(n)) && tEq(rhs(n)) ==> tAnd(n), tAnd(n))
+//@ axiom[tier-eq] forall(n, any, tRel(n) || (opIs(n, "=") || opIs(n, "!=")) && tEq(lhs(n)) && tRel(rhs(n)) ==> tEq(n), tEq(n))
+//@ axiom[tier-rel] forall(n, any, tAdd(n) || (opIs(n, "<") || opIs(n, ">") || opIs(n, "<=") || opIs(n, ">=")) && tRel(lhs(n)) && tAdd(rhs(n)) ==> tRel(n), tRel(n))
+//@ axiom[tier-add] forall(n, any, tMul(n) || (opIs(n, "+") || opIs(n, "-")) && tAdd(lhs(n)) && tMul(rhs(n)) ==> tAdd(n), tAdd(n))
+//@ axiom[tier-mul] forall(n, any, tUnary(n) || (opIs(n, "*") || opIs(n, "div") || opIs(n, "mod")) && tMul(lhs(n)) && tUnary(rhs(n)) ==> tMul(n), tMul(n))
+//@ axiom[tier-unary] forall(n, any, tUnion(n) || opIs(n, "*") && tUnion(lhs(n)) && is(rhs(n), *operandNode) ==> tUnary(n), tUnary(n))
+//@ axiom[tier-union] forall(n, any, tPath(n) || opIs(n, "|") && tUnion(lhs(n)) && tPath(rhs(n)) ==> tUnion(n), tUnion(n))
+//@ axiom[tier-path] forall(n, any, !is(n, *operatorNode) || opIs(n, "|") ==> tPath(n), tPath(n))
+
+//@ define tokOp(r, o) = r.typ == itemName && r.prefix == "" && r.name == o
+//@ define stopUnion(r) = r.typ != itemUnion
+//@ define stopMul(r) = stopUnion(r) && r.typ != itemStar && !tokOp(r, "div") && !tokOp(r, "mod")
+//@ define stopAdd(r) = stopMul(r) && r.typ != itemPlus && r.typ != itemMinus
+//@ define stopRel(r) = stopAdd(r) && r.typ != itemLt && r.typ != itemGt && r.typ != itemLe && r.typ != itemGe
+//@ define stopEq(r) = stopRel(r) && r.typ != itemEq && r.typ != itemNe
+//@ define stopAnd(r) = stopEq(r) && !tokOp(r, "and")
+//@ define stopOr(r) = stopAnd(r) && !tokOp(r, "or")
